@@ -303,6 +303,7 @@ def main(argv=None):
 
     # 3. optional extra phase (enumerators, fuzzers)
     extra = {}
+    nt_extra = 0
     if hasattr(mod, "extra"):
         try:
             extra = mod.extra(tier, seed, dict(known=known)) or {}
@@ -319,6 +320,7 @@ def main(argv=None):
         merged["evaluations"] += extra.pop("evaluations", 0)
         for h in extra.pop("nt_hashes", []):
             merged["nt"].add(h)
+        nt_extra = int(extra.pop("nt_count", 0))
         for smp in extra.pop("samples", []):
             if len(merged["samples"]) < 6:
                 merged["samples"].append(smp)
@@ -335,7 +337,7 @@ def main(argv=None):
     wall = time.time() - t0
     ev = dict(property_id=prop, tier=tier, seed=seed, level=mod.LEVEL, wall_s=round(wall, 2),
               violations=len(violations),
-              coverage=dict(evaluations=merged["evaluations"], distinct_nontrivial=len(merged["nt"]),
+              coverage=dict(evaluations=merged["evaluations"], distinct_nontrivial=len(merged["nt"]) + nt_extra,
                             rule=mod.RULE, samples=merged["samples"], labels=merged["labels"],
                             excluded_by_known_finding=merged["excluded"],
                             suppressed_known_finding_hits=merged["suppressed"],
@@ -355,7 +357,7 @@ def main(argv=None):
         json.dump(ev, f, indent=1, default=str)
 
     print("%s %s: evaluations=%d distinct_nontrivial=%d violations=%d wall=%.1fs labels=%s" % (
-        prop, tier, merged["evaluations"], len(merged["nt"]), len(violations), wall,
+        prop, tier, merged["evaluations"], len(merged["nt"]) + nt_extra, len(violations), wall,
         json.dumps(merged["labels"], sort_keys=True)))
     if violations:
         for path, failure in violations:
@@ -368,7 +370,7 @@ def main(argv=None):
         print("CHECK-ERROR %d shard/internal errors" % merged["errors"])
         return 2
     minnt = getattr(mod, "MIN_NT", {}).get(tier, 2)
-    if len(merged["nt"]) < minnt:
-        print("CHECK-ERROR only %d non-trivial cases (< %d)" % (len(merged["nt"]), minnt))
+    if len(merged["nt"]) + nt_extra < minnt:
+        print("CHECK-ERROR only %d non-trivial cases (< %d)" % (len(merged["nt"]) + nt_extra, minnt))
         return 2
     return 0
